@@ -41,6 +41,12 @@ CHECKS = {
  "C12": (True, "proptest choice-stream PBT: reconstruction oracle u = q v + r (exact over rationals, double-double with stated tolerance over floats), degree condition, error half on zero/empty divisors; libFuzzer(thorough)",
          "Hundreds of thousands of dividend/divisor pairs over rationals, integer-valued and general floats and Complex<f64>; success, reconstruction, degree of remainder and the Err contract are checked on each.",
          "Trusted: double-double reconstruction; tolerance 256 eps per coefficient relative to the absolute term sum.", "5/C12"),
+ "C13": (True, "proptest choice-stream PBT: exact Gaussian-rational field oracle for Complex<Rat>, double-double componentwise oracle for Complex<f64>, bitwise differential between compound-assignment and binary forms, order-law checks; libFuzzer(thorough)",
+         "Hundreds of thousands (thorough: millions) of operand triples; rational components checked exactly against independently coded field formulas and field laws, f64 components within 4/8 eps of the double-double value per component over magnitudes 1e-100..1e100, assignment forms bit-identical, ordering total/lexicographic/transitive.",
+         "Trusted: i128 rationals, double-double products/quotients.", "5/C13"),
+ "C14": (True, "proptest choice-stream PBT over structured argument regions (axes, both sides of every cut, branch points): differential against independently coded reference formulas, right-inverse round trips, principal-range predicates, identities, real-axis reduction; libFuzzer(thorough)",
+         "Every public complex function is evaluated at hundreds of thousands (thorough: millions) of points concentrated on axes, cut neighbourhoods and branch points and judged by definition-level oracles with stated amplification-aware tolerances.",
+         "Trusted: real std functions, the reference formulas (Smith division, Kahan sqrt, hypot/atan2 logarithm); tolerance multipliers calibrated with >=100x head-room; signed-zero behaviour exactly on cuts not asserted.", "5/C14"),
 }
 NOT_YET = "check not built yet in this revision of /verif (work in progress); the design for it is in DESIGN.md section 5"
 
